@@ -3,6 +3,7 @@
 package main
 
 import (
+	"syscall"
 	"encoding/json"
 	"fmt"
 	"os"
@@ -36,6 +37,7 @@ func runStreamJob(job *Job, res *Result) {
 	mixed := job.Args["mixed"] == "1" // the producer also has an ordinary (non-streaming) output
 	stale := job.Args["stale"] == "1" // a regular file already sits at the streaming output's path (history: the port used to be {o:..})
 	staleFifo := job.Args["stalefifo"] == "1" // a REGULAR file sits at <path>.fifo before the run
+	leftFifo := job.Args["leftover_fifo"] == "1" // a named pipe left by a killed run sits at <path>.fifo
 	spy := job.Args["spy"] == "1"     // a pass-through process between producer and consumer notes the order of the streamed IPs
 	res.Scenario = fmt.Sprintf("stream/n=%d/payload=%d/max=%d", n, size, maxT)
 	if mixed {
@@ -52,6 +54,9 @@ func runStreamJob(job *Job, res *Result) {
 	}
 	if staleFifo {
 		res.Scenario += "/regular-file-at-fifo-path"
+	}
+	if leftFifo {
+		res.Scenario += "/leftover-fifo"
 	}
 	dir := filepath.Join(job.Base, "e")
 	vs.EventsDependent = false
@@ -77,6 +82,9 @@ func runStreamJob(job *Job, res *Result) {
 			}
 			if staleFifo {
 				os.WriteFile(fmt.Sprintf("in%d.txt.stream.fifo", i), []byte("STALE FIFO"), 0644)
+			}
+			if leftFifo {
+				syscall.Mkfifo(fmt.Sprintf("in%d.txt.stream.fifo", i), 0644)
 			}
 		}
 		before = statAll(".")
@@ -133,6 +141,9 @@ func runStreamJob(job *Job, res *Result) {
 			if job.Args["only_order"] == "1" && class != "stream-order" {
 				return // this job judges the emission order only (C08); everything else is C17's business
 			}
+			if job.Args["only_leftover"] == "1" && class != "adopted-leftovers" {
+				return
+			}
 			if job.Args["only_slots"] == "1" && class != "slots-exceeded" {
 				return // this job judges the slot bound only (C06)
 			}
@@ -177,6 +188,13 @@ func runStreamJob(job *Job, res *Result) {
 				sig = "stream-rerun|producer-blocks-on-fifo"
 			}
 			add(cls, fmt.Sprintf("the run never terminates: %s is stuck: %v", who, stuck), sig)
+			return len(res.Violations) < 5
+		}
+		if leftFifo {
+			// C03: leftovers that were not removed make the re-run stop, they are never adopted
+			if !(strings.HasPrefix(oc, "exit:") && oc != "exit:0") {
+				add("adopted-leftovers", fmt.Sprintf("a FIFO left behind by a killed run was present, but the re-run ended with outcome '%s' instead of stopping with a non-zero status", oc), "")
+			}
 			return len(res.Violations) < 5
 		}
 		if staleFifo && strings.HasPrefix(oc, "exit:") && oc != "exit:0" {
